@@ -54,11 +54,18 @@ fn mk_config<const D: u8>(c: &Value) -> TestMarketConfig<u64, D> {
             .positive_factor(gi(c, "impPos"))
             .negative_factor(gi(c, "impNeg"))
             .build(),
-        swap_fee_params: FeeParams::builder()
-            .fee_receiver_factor(gi(c, "feeRecv"))
-            .positive_impact_fee_factor(gi(c, "feePos"))
-            .negative_impact_fee_factor(gi(c, "feeNeg"))
-            .build(),
+        swap_fee_params: {
+            let p = FeeParams::builder()
+                .fee_receiver_factor(gi(c, "feeRecv"))
+                .positive_impact_fee_factor(gi(c, "feePos"))
+                .negative_impact_fee_factor(gi(c, "feeNeg"))
+                .build();
+            // feeDisc = -1: no discount factor configured
+            match c.get("feeDisc").and_then(|x| x.as_i64()).unwrap_or(-1) {
+                d if d >= 0 => p.with_discount_factor(d as u64),
+                _ => p,
+            }
+        },
         position_params: PositionParams::new(unit, unit, unit / 10, unit / 2, unit / 2, unit / 4),
         position_impact_params: PriceImpactParams::builder()
             .exponent(unit)
@@ -360,6 +367,7 @@ fn random_run<const D: u8>(rng: &mut Rng, sink: &mut Sink) {
     let c = json!({
         "feePos": if zero_all { 0 } else { fee_pos }, "feeNeg": if zero_all { 0 } else { fee_neg },
         "feeRecv": f(rng, &[0, 3, 5, 5, 10]),
+        "feeDisc": match rng.below(6) { 0 => 0i64, 1 => 3 * scale as i64, 2 => 10 * scale as i64, 3 => 5 * scale as i64, _ => -1 },
         "impPos": if zero_all { 0 } else { f(rng, &[0, 1, 1, 2, 3, 5]) },
         "impNeg": if zero_all { 0 } else { f(rng, &[0, 1, 2, 2, 4, 5]) },
         "impExp": *rng.pick(&[0u64, 1, 1, 2, 2]),
